@@ -202,6 +202,13 @@ func genSlice(r *gen.R, validOnly bool) (mon.OpReq, Expect, bool) {
 		case 1:
 			if useAxes && k > 1 {
 				axes[0] = axes[1]
+				if r.Bool() { // the same axis once non-negative and once negative
+					if axes[1] >= 0 {
+						axes[0] = axes[1] - int64(rank)
+					} else {
+						axes[0] = axes[1] + int64(rank)
+					}
+				}
 			}
 		case 2:
 			if useAxes {
